@@ -2,7 +2,7 @@
    rationals.  A location is a vector over the model's axes (0 = the axis is absent from the location's dict, as
    VariationModel strips zero entries); a region is a vector of optional tents (None = axis not in the region's dict).
    The loops over dict items become loops over the positions of the vector: the only order-dependent piece of the Python
-   code is the running maximum that collects `bestAxes`, which is transcribed as written (reset on a larger ratio, append
+   code is the running maximum that collects `bestAxes`, which is transcribed as written (emptied on a larger ratio, extended
    on an equal one). *)
 From Coq Require Import QArith List Bool.
 From FV Require Import Base.Ser Base.Res Geom.QTools C09.Model.
@@ -51,29 +51,27 @@ Definition cand (t : tent) (v : Q) : option (Q * tent) :=
   if Qltb v pk then Some ((v - pk) / (l - pk), (v, pk, u))
   else if Qltb pk v then Some ((v - pk) / (u - pk), (l, pk, v))
   else None.
-Fixpoint best_go (r : region) (p : locv) (a : nat) (br : Q) (ba : list (nat * tent)) : list (nat * tent) :=
+(* bestAxes as a partial map over the axes seen so far (None = axis not in the dict); a larger ratio empties the dict *)
+Fixpoint best_go (r : region) (p : locv) (br : Q) (ba : list (option tent)) : list (option tent) :=
   match r, p with
   | Some t :: r', v :: p' =>
     match cand t v with
     | Some (ratio, triple) =>
-      let '(br1, ba1) := if Qltb br ratio then (ratio, []) else (br, ba) in
-      let ba2 := if Qeqb ratio br1 then ba1 ++ [(a, triple)] else ba1 in
-      best_go r' p' (S a) br1 ba2
-    | None => best_go r' p' (S a) br ba
+      let '(br1, ba1) := if Qltb br ratio then (ratio, map (fun _ => None) ba) else (br, ba) in
+      best_go r' p' br1 (ba1 ++ [if Qeqb ratio br1 then Some triple else None])
+    | None => best_go r' p' br (ba ++ [None])
     end
-  | _ :: r', _ :: p' => best_go r' p' (S a) br ba
+  | _ :: r', _ :: p' => best_go r' p' br (ba ++ [None])
   | _, _ => ba
   end.
-Fixpoint set_at (r : region) (a : nat) (t : tent) : region :=
-  match r, a with
-  | _ :: r', O => Some t :: r'
-  | x :: r', S a' => x :: set_at r' a' t
-  | [], _ => []
+(* for axis, triple in bestAxes.items(): region[axis] = triple *)
+Fixpoint apply_best (r : region) (bs : list (option tent)) : region :=
+  match r, bs with
+  | x :: r', b :: bs' => (match b with Some t => Some t | None => x end) :: apply_best r' bs'
+  | _, _ => r
   end.
-Definition apply_best (r : region) (bs : list (nat * tent)) : region :=
-  fold_left (fun r' b => set_at r' (fst b) (snd b)) bs r.
 Definition narrow (r : region) (p : locv) : region :=
-  if same_axes r p && relevant r p then apply_best r (best_go r p 0 (-1) []) else r.
+  if same_axes r p && relevant r p then apply_best r (best_go r p (-1) []) else r.
 
 Fixpoint supports_go (ranges : list (Q * Q)) (prev rest : list locv) : list region :=
   match rest with
